@@ -9,7 +9,10 @@ Generates lean/FairModel/Generated/BootstrapSrc.lean from
   fairlearn/metrics/_metric_frame.py   MetricFrame.__init__               n_samples=n_boot, random_state=random_state
                                        _populate_results_ci / _group_ci   every *_ci accessor gets `ci_quantiles` unchanged
 
-Refuses (`Untranslatable`) anything not of these shapes: another resampling call than one `<frame>.sample(..)` with
+Refuses (`Untranslatable`) anything not of these shapes: any statement in generate_single_bootstrap_sample other than pure
+asserts, the `data.sample(..)` binding, the `DisaggregatedResult.create(..)` binding and the final return (`_single_census`:
+nothing may happen to the resampled frame between the two calls), a `create` argument that is not the parameter of the same
+name, another resampling call than one `<frame>.sample(..)` with
 literal keywords, a seed stream whose three branches disagree, a quantile call with positional extras or unknown
 keywords, a result loop that is not `for i in range(result_np.shape[0])` building entry i from `result_np[i, ..]`, ..."""
 import ast
@@ -185,7 +188,76 @@ def _single(tree):
               and isinstance(s.targets[0], ast.Name)]
         if len(rb) != 1 or not isinstance(rv, ast.Name) or rv.id != rb[0].targets[0].id or len(_stores(fn, rv.id)) != 1:
             raise Untranslatable("generate_single_bootstrap_sample: the DisaggregatedResult created is not what is returned")
+    _single_census(fn, c, cr[0])
     return size, replace, axis, ign
+
+
+def _single_census(fn, sample_call, create_call):
+    """Statement census of the WHOLE body of generate_single_bootstrap_sample (after normalisation).  Accepted, at top level only:
+    side-effect free `assert`s, the statement that holds the `data.sample(..)` call, the statement that holds the
+    `DisaggregatedResult.create(..)` call (the same statement when the sample is passed inline) and the final `return`.
+    Anything between / around them -- `sampled_data.drop_duplicates(inplace=True)`, `sampled_data["y_pred"] = ..`,
+    `sampled_data.sort_values(.., inplace=True)`, a loop, a branch, a `with`, a `try` -- is refused: it would change what is
+    resampled without changing any lifted expression.  The other arguments of `create` must be the function's own parameters
+    of the same name (no positional arguments: `create` is keyword-only), `data` / `random_state` must not be rebound, and
+    the `data.sample(..)` call must be the entire value of its statement / argument (no method chained on it)."""
+    where = "generate_single_bootstrap_sample"
+    params = _params(fn)
+    holders = {}
+    for st in fn.body:
+        inside = list(ast.walk(st))
+        has_s = any(n is sample_call for n in inside)
+        has_c = any(n is create_call for n in inside)
+        if isinstance(st, ast.Assert):
+            if has_s or has_c or not normalize.is_pure_expr(st.test) or (st.msg is not None and not normalize.is_pure_expr(st.msg)):
+                raise Untranslatable(f"{where}: assert with side effects at line {st.lineno}")
+            continue
+        if has_s or has_c:
+            if has_s:
+                holders["sample"] = st
+            if has_c:
+                holders["create"] = st
+            if isinstance(st, ast.Return) and st is fn.body[-1]:
+                continue
+            if not (isinstance(st, ast.Assign) and len(st.targets) == 1 and isinstance(st.targets[0], ast.Name)
+                    and (st.value is sample_call or st.value is create_call)):
+                raise Untranslatable(f"{where}: line {st.lineno}: the sample / the DisaggregatedResult is not bound by a plain "
+                                     f"`name = <call>`: `{ast.unparse(st)[:80]}`")
+            continue
+        if isinstance(st, ast.Return) and st is fn.body[-1]:
+            continue
+        raise Untranslatable(f"{where}: statement I do not understand at line {st.lineno} (between data.sample and "
+                             f"DisaggregatedResult.create nothing may happen): `{ast.unparse(st)[:80]}`")
+    if "sample" not in holders or "create" not in holders:
+        raise Untranslatable(f"{where}: data.sample / DisaggregatedResult.create are not top-level statements")
+    if fn.body.index(holders["sample"]) > fn.body.index(holders["create"]):
+        raise Untranslatable(f"{where}: DisaggregatedResult.create comes before data.sample")
+    # the sample call is the whole right-hand side / the whole `data=` argument (checked by the caller for the inline form)
+    if holders["sample"] is not holders["create"] and holders["sample"].value is not sample_call:
+        raise Untranslatable(f"{where}: something is applied to the result of data.sample(..)")
+    if create_call.args:
+        raise Untranslatable(f"{where}: positional arguments in DisaggregatedResult.create(..)")
+    seen = set()
+    for k in create_call.keywords:
+        if k.arg is None:
+            raise Untranslatable(f"{where}: **kwargs in DisaggregatedResult.create(..)")
+        seen.add(k.arg)
+        if k.arg == "data":
+            continue
+        if k.arg not in ("annotated_functions", "sensitive_feature_names", "control_feature_names"):
+            raise Untranslatable(f"{where}: keyword `{k.arg}` of DisaggregatedResult.create I do not understand")
+        if not (isinstance(k.value, ast.Name) and k.value.id == k.arg and k.arg in params):
+            raise Untranslatable(f"{where}: DisaggregatedResult.create({k.arg}=..) is not the function's own `{k.arg}` parameter: "
+                                 f"`{ast.unparse(k.value)[:60]}`")
+    for need in ("data", "annotated_functions", "sensitive_feature_names", "control_feature_names"):
+        if need not in seen:
+            raise Untranslatable(f"{where}: DisaggregatedResult.create(..) is not given `{need}`")
+    for p in params:
+        if _stores(fn, p):
+            raise Untranslatable(f"{where}: parameter `{p}` is rebound")
+    for n in ast.walk(fn):
+        if isinstance(n, (ast.Yield, ast.YieldFrom, ast.Global, ast.Nonlocal, ast.NamedExpr)):
+            raise Untranslatable(f"{where}: {type(n).__name__}")
 
 
 def _stream(tree):
@@ -280,7 +352,76 @@ def _stream(tree):
                  and isinstance(s.targets[0], ast.Name)]
         if len(bound) != 1 or ast.unparse(app[0].args[0]) != bound[0].targets[0].id or len(_stores(fn, bound[0].targets[0].id)) != 1:
             raise Untranslatable("generate_bootstrap_samples: the sample drawn is not the sample appended")
+    _stream_census(fn, lp, cs[0], app[0])
     return size_is_n, loop_off, seed
+
+
+def _stream_census(fn, lp, call, app):
+    """Statement census of generate_bootstrap_samples.  Top level: pure asserts, the if-chain that defines `rs`, plain
+    `name = <pure expression>` bindings of locals, the loop, the return.  Loop body: the binding of the single sample and the
+    `result.append(..)` only.  No parameter is rebound, and every argument of generate_single_bootstrap_sample other than the
+    seed is the parameter of the same name -- so nothing can be done to `data` (or to a sample) that the lifted expressions do
+    not show: `data.drop_duplicates(inplace=True)`, `data = data.head(10)`, `nxt.by_group[:] = 0` are refused."""
+    where = "generate_bootstrap_samples"
+    params = _params(fn)
+
+    def pure_binding(st):
+        return (isinstance(st, ast.Assign) and len(st.targets) == 1 and isinstance(st.targets[0], ast.Name)
+                and st.targets[0].id not in params and normalize.is_pure_expr(st.value))
+
+    def rs_chain(st):
+        """if / elif / else whose branches only bind locals by calls on the generator / raise"""
+        while True:
+            if not isinstance(st, ast.If) or not normalize.is_pure_expr(st.test):
+                return False
+            for b in st.body:
+                if not (isinstance(b, ast.Raise) or (isinstance(b, ast.Assign) and len(b.targets) == 1
+                                                     and isinstance(b.targets[0], ast.Name) and b.targets[0].id not in params)):
+                    return False
+            if not st.orelse:
+                return True
+            if len(st.orelse) == 1 and isinstance(st.orelse[0], ast.If):
+                st = st.orelse[0]
+                continue
+            return all(isinstance(b, ast.Raise) or (isinstance(b, ast.Assign) and len(b.targets) == 1
+                                                    and isinstance(b.targets[0], ast.Name) and b.targets[0].id not in params)
+                       for b in st.orelse)
+
+    for st in fn.body:
+        if isinstance(st, ast.Assert):
+            if not normalize.is_pure_expr(st.test):
+                raise Untranslatable(f"{where}: assert with side effects at line {st.lineno}")
+            continue
+        if st is lp or (isinstance(st, ast.Return) and st is fn.body[-1]) or pure_binding(st) or rs_chain(st):
+            continue
+        raise Untranslatable(f"{where}: statement I do not understand at line {st.lineno}: `{ast.unparse(st)[:80]}`")
+    if lp.orelse:
+        raise Untranslatable(f"{where}: for .. else")
+    for st in lp.body:
+        inside = list(ast.walk(st))
+        if any(n is call for n in inside) or any(n is app for n in inside):
+            if isinstance(st, ast.Expr) and st.value is app:
+                continue
+            if isinstance(st, ast.Assign) and st.value is call and len(st.targets) == 1 and isinstance(st.targets[0], ast.Name):
+                continue
+        raise Untranslatable(f"{where}: loop statement I do not understand at line {st.lineno}: `{ast.unparse(st)[:80]}`")
+    for k in call.keywords:
+        if k.arg is None:
+            raise Untranslatable(f"{where}: **kwargs in generate_single_bootstrap_sample(..)")
+        if k.arg == "random_state":
+            continue
+        if k.arg not in ("data", "annotated_functions", "sensitive_feature_names", "control_feature_names"):
+            raise Untranslatable(f"{where}: keyword `{k.arg}` of generate_single_bootstrap_sample I do not understand")
+        if not (isinstance(k.value, ast.Name) and k.value.id == k.arg and k.arg in params):
+            raise Untranslatable(f"{where}: generate_single_bootstrap_sample({k.arg}=..) is not the function's own `{k.arg}` "
+                                 f"parameter: `{ast.unparse(k.value)[:60]}`")
+    given = {k.arg for k in call.keywords}
+    for need in ("data", "annotated_functions", "sensitive_feature_names", "control_feature_names"):
+        if need not in given:
+            raise Untranslatable(f"{where}: generate_single_bootstrap_sample(..) is not given `{need}`")
+    for p_ in params:
+        if _stores(fn, p_):
+            raise Untranslatable(f"{where}: parameter `{p_}` is rebound")
 
 
 def _quantile_fn(tree, name, frame):
